@@ -7,8 +7,9 @@ CONSTANTS
   MaxSteps = 60
   Modes = {"normal", "coro"}
   Typed = TRUE
-  Ops = {"ConstructEmpty", "ConstructH", "MoveConstruct", "AddHandle", "AddFill", "AddTo", "MergeShl", "MoveAssign", "Pop", "Clear", "Destroy", "CoAwait", "Pause"}
+  Ops = {"ConstructEmpty", "ConstructH", "MoveConstruct", "AddHandle", "AddFill", "AddTo", "MergeShl", "MoveAssign", "Pop", "Clear", "Destroy", "CoAwait", "Pause", "Read", "ConstructSelf", "AddSelf", "Yield"}
+  Fixed = TRUE
   Targets = {3, 4, 6, 7, 12, 13, 24, 25}
-INVARIANTS TypeOK RepOK Conservation NoDoubleResume NoLeak
-PROPERTIES InlineNoAlloc MovedFromIsEmpty EmptyResumesNothing ValuePreserved ResumeOrder QueueFIFO
+INVARIANTS TypeOK RepOK NoDoubleResume Conservation NoLeak
+PROPERTIES InlineNoAlloc MovedFromIsEmpty EmptyResumesNothing ValuePreserved ReadsAgree ResumeOrder QueueFIFO
 CHECK_DEADLOCK FALSE
